@@ -365,8 +365,12 @@ def check_drop(ctx: Context, rep, rule: str) -> None:
     fn = ctx.rust.fn(PM, "<Drop for ParallelMap>::drop")
     oi = order_index(fn)
     joins = fn.method_calls("join")
+    rep.ob(rule, bool(joins), loc=fn.loc(), where=fn.qual,
+           construct=f"{len(joins)} join() call(s) in Drop::drop",
+           message="dropping the parallel map joins its worker threads (a "
+           "detached worker keeps reading shards after the iterator is gone)")
     if not joins:
-        raise AnalysisError("C15.drop: no join in Drop::drop")
+        return
     stops = []
     for n in walk(fn.body):
         if kind(n, "For") and "communication" in norm(text(n["iter"])):
